@@ -560,7 +560,7 @@ pub fn exec(sc: &mut dyn ScopeOps, ctx: &mut Ctx<'_>) -> Flow {
                 return Flow::Exit { unwind: s(&args, "how") == "unwind" };
             }
             "guard_reset" => return Flow::GuardReset,
-            "reset" | "reset_to_start" | "drop" => return Flow::BumpOp,
+            "reset" | "reset_to_start" | "drop" | "with_settings" => return Flow::BumpOp,
             "try_with" => {
                 ctx.pc += 1;
                 let tag = 1 + ((i * 17 + 3) % 250) as u8;
@@ -777,6 +777,22 @@ pub fn run_root(make: &mut dyn FnMut(&Value) -> Option<Box<dyn BumpOps>>, ctx: &
                         ctx.record(i, None, Ctx::obs(if r.is_ok() { "ok" } else { "panic" }));
                         return;
                     }
+                    "with_settings" => {
+                        let args = ctx.steps[i]["args"].clone();
+                        match bump.with_settings(u(&args, "ma"), b(&args, "ga")) {
+                            Ok(nb) => {
+                                bump = nb;
+                                ctx.record(i, Some(bump.as_scope_ops(through_bump)), Ctx::obs("ok"));
+                            }
+                            Err(msg) => {
+                                // the conversion panicked: the Bump was moved into the call and dropped by the unwinding
+                                let mut o = Ctx::obs("panic");
+                                o.insert("msg".into(), json!(msg));
+                                ctx.record(i, None, o);
+                                return;
+                            }
+                        }
+                    }
                     _ => unreachable!(),
                 }
             }
@@ -886,6 +902,26 @@ fn run_prep(sc: &mut dyn ScopeOps, ctx: &mut Ctx<'_>) {
                             pushed.push(tag);
                             Ctx::obs("ok")
                         }
+                        Ok(Err(())) => Ctx::obs("err"),
+                        Err(e) => {
+                            let mut o = Ctx::obs("panic");
+                            o.insert("msg".into(), json!(panic_msg(&e)));
+                            o
+                        }
+                    };
+                    decorate(&mut o, pb.len(), pb.cap());
+                    let snap = pb.snapshot();
+                    ctx.record_snap(j, Some((snap, ma)), o);
+                }
+                "prep_reserve" => {
+                    ctx.pc += 1;
+                    let pb = coll.as_mut().unwrap();
+                    region().fail_next.set(b(&jargs, "fail"));
+                    let n = u(&jargs, "n");
+                    let r = catch_unwind(AssertUnwindSafe(|| pb.reserve(n)));
+                    region().fail_next.set(false);
+                    let mut o = match r {
+                        Ok(Ok(())) => Ctx::obs("ok"),
                         Ok(Err(())) => Ctx::obs("err"),
                         Err(e) => {
                             let mut o = Ctx::obs("panic");
